@@ -181,7 +181,11 @@ def write_svg(matrix, matrix_size, out, colormap, scale=1, border=None, xmldecl=
     if omit_encoding:
         encoding = 'utf-8'
     allow_css3_colors = svgversion is not None and svgversion >= 2.0
-    is_multicolor = len(set(colormap.values())) > 2
+    # Two colors are only sufficient if all dark module types share one color
+    # and all light module types share one color
+    is_multicolor = len(set(colormap.values())) > 2 \
+        or len({clr for mt, clr in colormap.items() if mt >> 8}) > 1 \
+        or len({clr for mt, clr in colormap.items() if not mt >> 8}) > 1
     need_background = not is_multicolor and colormap[consts.TYPE_QUIET_ZONE] is not None and not draw_transparent
     need_svg_group = scale != 1 and (need_background or is_multicolor)
     if is_multicolor:
@@ -561,8 +565,11 @@ def write_png(matrix, matrix_size, out, colormap, scale=1, border=None, compress
             # Since black is zero, it should be the first entry
             palette = [black, transparent]
         png_trans_idx = palette.index(transparent)
-    if number_of_colors > 2:
-        # Need the more expensive matrix iterator
+    if number_of_colors > 2 \
+            or len({clr for mt, clr in clr_map.items() if mt >> 8}) > 1 \
+            or len({clr for mt, clr in clr_map.items() if not mt >> 8}) > 1:
+        # More than two colors or the module types of the same kind (dark / light)
+        # do not share one color: Need the more expensive matrix iterator
         miter = matrix_iter_verbose(matrix, matrix_size, scale=1, border=0)
         color_index = {module_type: palette.index(clr) for module_type, clr in clr_map.items()}
     else:
